@@ -2,7 +2,7 @@
 
 Stage A programs (built with the real DSL): {q Q i I x} x {local, array map,
 packet, m?[pointer]} x amount {small constant, 64-bit constant, negative via
--=, register, expression over another variable}.
+-=, register, expression over another variable, -= register, -= expression}.
 Contract of the statement (from the property): the compiled statement
 contains exactly one access to the variable, an atomic add of its width, whose
 operand is the amount; run alone it adds the amount modulo 2**width and
@@ -11,7 +11,8 @@ number of concurrent instances and any interleaving.
 """
 FMTS = "qQiIx"
 KINDS = ["local", "map", "packet", "pointer"]
-AMOUNTS = ["const5", "const64", "minus7", "register", "expression"]
+AMOUNTS = ["const5", "const64", "minus7", "register", "expression", "minus_register",
+           "minus_expression"]
 BIG = (1 << 40) + 3
 
 
@@ -59,7 +60,7 @@ def build(kind, fmt, amount):
             return BIG
         if amount == "minus7":
             return 7
-        if amount == "register":
+        if amount in ("register", "minus_register"):
             self.r2 = self.src
             return self.r2
         return self.src * 3 + 1
@@ -69,11 +70,11 @@ def build(kind, fmt, amount):
         if kind == "pointer":
             mm = {"Q": self.mQ, "I": self.mI}[fmt]
             addr = self.r10 + type(self).slot.relative_addr
-            if amount == "minus7":
+            if amount.startswith("minus"):
                 mm[addr] -= a
             else:
                 mm[addr] += a
-        elif amount == "minus7":
+        elif amount.startswith("minus"):
             self.var -= a
         else:
             self.var += a
@@ -117,4 +118,8 @@ def amount_value(amount, src64, fmt):
         return z3.BitVecVal(-7 * scale, 64)
     if amount == "register":
         return src64 * scale
+    if amount == "minus_register":
+        return -src64 * scale
+    if amount == "minus_expression":
+        return -(src64 * 3 + 1) * scale
     return (src64 * 3 + 1) * scale
